@@ -60,6 +60,10 @@ def flat_state(obj, prefix="", depth=0):
     for k, v in sorted(vars(obj).items()):
         if not k.endswith("_"):
             continue
+        if k == "n_features_in_":
+            # input bookkeeping: every validating call re-derives it from its own argument (reset=True; the
+            # baselines' update validates a dummy candidate with one feature) - no decision reads it
+            continue
         if isinstance(v, BaseEstimator) and depth < 3:
             out[prefix + k + "#params"] = ab.digest(_canon(v.get_params(deep=False), depth + 1))
             out.update(flat_state(v, prefix + k + ".", depth + 1))
@@ -167,11 +171,11 @@ def strategy_factories():
 BASELINES = ("StreamRandomSampling", "StreamRandomSampling(exceed)", "PeriodicSampling")
 
 
-def make_clf(seed):
+def make_clf(seed, d=1):
     from skactiveml.classifier import ParzenWindowClassifier
 
     rng = np.random.RandomState(seed)
-    X = rng.randint(0, 8, size=(12, 1)).astype(float)
+    X = rng.randint(0, 8, size=(12, d)).astype(float)
     y = (X[:, 0] + rng.randint(0, 3, size=12) > 5).astype(float)
     y[rng.rand(12) < 0.25] = np.nan
     clf = ParzenWindowClassifier(classes=[0, 1], random_state=0, metric_dict={"gamma": 0.3})
